@@ -75,8 +75,13 @@ def _pert(vals, rnd, rel=0.05):
 def nasa(name, comp, rnd, cov, phase='G'):
     import numpy as np
     from pmutt.empirical.nasa import Nasa
+    # the two segments are independent sets: Cp/R, H/RT and S/R all jump visibly (~1) at T_mid
+    a_high = _pert(H2O_HIGH, rnd)
+    a_high[0] += rnd.uniform(0.5, 1.5)
+    a_high[5] += rnd.uniform(400., 1200.)
+    a_high[6] += rnd.uniform(0.5, 2.)
     return Nasa(name=name, elements=dict(comp), phase=phase, T_low=200., T_mid=1000., T_high=3000.,
-                a_low=np.array(_pert(H2O_LOW, rnd)), a_high=np.array(_pert(H2O_HIGH, rnd)),
+                a_low=np.array(_pert(H2O_LOW, rnd)), a_high=np.array(a_high),
                 misc_models=[cov_model(name, rnd)] if cov else None)
 
 
@@ -232,12 +237,22 @@ def build(cell, rnd, comp_var='ints', sibling_of=None):
     return mode(cls, rnd), zero, 'mode', None
 
 
-def draw_T(shape, ttype, rnd, lo, hi):
-    """a temperature (or temperatures) in every accepted type / container"""
+# temperatures ON the bounds of the polynomial segments: range ends and every interior bound
+# (T_RANGE key -> bounds of the objects built above)
+BREAKS = {'Nasa': [200., 1000., 3000.], 'Nasa9': [200., 1000., 6000.], 'Shomate': [500., 1700.]}
+
+
+def draw_T(shape, ttype, rnd, lo, hi, breaks=None, pick=0):
+    """a temperature (or temperatures) in every accepted type / container.  With `breaks`
+    the temperatures sit exactly on segment bounds: an array holds all of them (plus one
+    interior value), a scalar is the bound number `pick` (interior bounds first)."""
     import numpy as np
     if shape == 'array':
         n = 1 if ttype == 'len1' else 3
         vals = sorted(rnd.uniform(lo, hi) for _ in range(n))
+        if breaks:
+            inner = breaks[1:-1] or breaks
+            vals = [inner[pick % len(inner)]] if n == 1 else sorted(set(breaks) | {float(int(vals[0]))})
         if ttype == 'list':
             return list(vals)
         if ttype == 'tuple':
@@ -246,6 +261,9 @@ def draw_T(shape, ttype, rnd, lo, hi):
             return np.array([int(v) for v in vals])
         return np.array(vals)
     v = rnd.uniform(lo, hi)
+    if breaks:
+        order = breaks[1:-1] + [breaks[0], breaks[-1]]
+        v = order[pick % len(order)]
     if ttype == 'int':
         return int(v)
     if ttype == 'npfloat':
